@@ -167,16 +167,26 @@ def handleStack (case : Nat) (j : Json) : IO Unit := do
   let mut note := ""
   let mut rid := 0
   let mut failovers := 0
+  let mut failedSince : List Nat := []
   for ((op, obs), i) in (ops.zip steps).zipIdx do
     let kind := jstr (jget op "op")
     let e := nameIdx names (jstr (jget op "e"))
-    if kind == "set" then σ := step active σ (.healthResult e (jstr (jget op "s")))
+    if kind == "set" then
+      σ := step active σ (.healthResult e (jstr (jget op "s")))
+      failedSince := afterCheck failedSince e (jstr (jget op "s"))
     else if kind == "break" then broken := (e, jstr (jget op "kind")) :: broken.filter (·.1 != e)
     else if kind == "mend" then broken := broken.filter (·.1 != e)
-    else if kind == "req" then
+    else if kind == "req" || kind == "overlap" then
       rid := rid + 1
       let contacted := (jstrList (jget obs "contacted")).map (nameIdx names)
       let before := jget obs "before"
+      let held := jstr (jget obs "held")
+      -- "marked failed by … a failed attempt completed before the request arrived, receives none of its traffic until a
+      -- later check marks it routable again": `failedSince` = endpoints with a failed attempt and no later passing check
+      if spec && !noneAfterFailedAttempt failedSince contacted then
+        spec := false
+        sig := "traffic-to-endpoint-after-failed-attempt"
+        note := s!"step {i}: the request reached {contacted.map (fun x => names.getD x "?")}; attempts on {failedSince.map (fun x => names.getD x "?")} had failed before it arrived and no check has readmitted them since (repository said {statusList names before})"
       -- the property, on the implementation's own repository reading taken when the request was sent
       let atArrival := fun (x : Nat) => (names[x]?).map (fun n => jstr (jget before n))
       if spec && !onlyRoutableReceived atArrival contacted then
@@ -184,13 +194,23 @@ def handleStack (case : Nat) (j : Json) : IO Unit := do
         sig := "traffic-to-endpoint-not-routable-at-arrival"
         note := s!"step {i}: the request reached {contacted.map (fun x => names.getD x "?")} while the repository said {statusList names before}"
       -- the model
-      let beh : Nat → Attempt := fun x => match broken.find? (·.1 == x) with
+      let heldIdx := if kind == "overlap" && held != "" then some (nameIdx names held) else none
+      let beh : Nat → Attempt := fun x => if heldIdx == some x then .failBefore true else match broken.find? (·.1 == x) with
         | some (_, "reset0") => .failBefore true
         | some _ => .failBefore false
         | none => .ok ⟨200, [], []⟩
       let logLen := σ.log.length
       σ := step active σ (.arrive rid (fun _ => true))
       let start := σ
+      -- overlap: while the first attempt is held, a health-check round passes every endpoint
+      if heldIdx.isSome then
+        for x in List.range names.length do
+          σ := step active σ (.healthResult x "healthy")
+        failedSince := []
+        let mid := statusList names (jget obs "mid")
+        if agree && mid != σ.repo.map (·.status) then
+          agree := false
+          if note == "" then note := s!"step {i} (overlap): repository statuses after the health-check round {mid}, model {σ.repo.map (·.status)}"
       let pickFor : State → List Ep → Option Ep := fun s vw =>
         if bal == "priority" then prioritySelectTier (topTier vw) 0
         else -- the order inside one request is the balancer's business: follow the observed order
@@ -207,6 +227,9 @@ def handleStack (case : Nat) (j : Json) : IO Unit := do
         agree := false
         if note == "" then note := s!"step {i}: request contacted {contacted}, model dispatches {mTargets} (candidates at arrival {(start.inflight.find? (fun r => r.rid == rid)).map (fun r => r.cands.map (·.id))})"
       σ := { σ with inflight := σ.inflight.filter (fun r => r.rid != rid) }
+      -- attempts after which the request failed over: the system itself treated them as failed attempts (a connection
+      -- error); what became of the last attempt is not judged here
+      failedSince := (failedOverFrom contacted ++ failedSince).eraseDups
     let after := statusList names (jget obs "after")
     if agree && after != σ.repo.map (·.status) then
       agree := false
